@@ -40,8 +40,20 @@ class Kit:
     # ---- one case on the implementation (runs in a worker process)
     def eval_case(self, case):
         from . import sim
+        pre = case.get("pre")
+        if pre:
+            # an earlier run on the same objects, then the model edited in place (a skill, a work amount, a
+            # cost, an absence list, a new dependency, a new worker): what follows is judged as a run of the
+            # EDITED model -- nothing of the earlier run or of the old model may survive
+            b, tr_all = sim.run_ops(case, ops=[pre["op"], {"op": "edit", "edit": pre["edit"]}] + case["ops"])
+            trace = tr_all[2:]
+            case = sim.edited_case(case, pre["edit"])
+            case.pop("pre")
+            if any(r["exc"] for r in tr_all[:2]):
+                trace = sim.run_ops(case)[1]
+        else:
+            b, trace = sim.run_ops(case)
         S = O.Static(case)
-        b, trace = sim.run_ops(case)
         viol = self.oracle(S, b, trace)
         res = {"violations": viol, "sig": simcheck.behaviour_sig(S, trace), "hist": simcheck.base_hist(S, trace),
                "summary": {"status": (trace[-1].get("dump") or {}).get("status"),
@@ -85,6 +97,14 @@ class Kit:
                 self.tweak(rng, c)
             if not self.make_ops or all(o.get("op") == "simulate" for o in c["ops"]):
                 gen.usage_variants(rng, c)
+            if rng.random() < 0.09 and c["ops"][0].get("op") == "simulate" and "edges_in" not in c:
+                from .props.c09 import gen_edit
+                c["ops"][0]["init_state"], c["ops"][0]["init_log"] = True, True
+                c["pre"] = {"op": dict(gen.gen_sim_op(rng, c), init_state=True, init_log=True), "edit": gen_edit(rng, c)}
+                if rng.random() < 0.3:
+                    c["pre"]["op"].update(op="backward", due=rng.random() < 0.5, revlog=rng.random() < 0.6)
+                if c.get("int_rules"):
+                    c["pre"]["op"]["int_rule"] = True
             cases.append(c)
         return cases
 
